@@ -499,3 +499,18 @@ theorem C02_paths_examples :
     GB.Paths.wsPathOK ["upgrade", "goReadLoop", "forward", "wgWait", "closeDone", "netClose"] = false ∧
     GB.Paths.httpPathOK ["forward", "respond", "finish"] = false := by
   decide
+
+/-! ### Round 5 (d): Forward's discipline towards the adapters (`stopAfterCtx` of the helper model) -/
+
+/-- In every run of Forward: once a stream operation (Incoming.Recv / Incoming.Send / Outgoing.Stream /
+    outgoing.Send / outgoing.Recv) has returned an error — in particular the ctx error of an abandoned withCtx call —
+    Forward never calls that operation again: no later step of the run is a call of it. Hence per direction at most
+    one abandoned helper exists (`C02_withctx_one_outstanding`). -/
+theorem C02_no_call_after_error (p : Params) (tr : List (Label M E)) (s : State M E) (h : Run p tr s) (o : Op)
+    (he : errSeen o tr = true) : ∀ l s', step p s l = some s' → callOf l ≠ some o :=
+  fun l s' hs => dead_no_call p o s s' l h.sinv (errSeen_dead h o he) hs
+
+/-- non-vacuity: a run in which outgoing.Send failed; the request pump has exited and a further Send is refused -/
+example : (GB.LTS.run (step (M := Nat) (E := Nat) { cs := true, ss := true, incAware := true, outAware := true }) (init Nat Nat)
+    [.outStreamCall, .outStreamRet .ok, .incRecvCall, .incRecvRet (.msg 1), .outSendCall 1, .outSendRet (.err 7),
+     .outSendCall 1]).isNone = true := by decide
